@@ -21,6 +21,10 @@ FAMILIES = {
     "late-failure-items": lambda n: "SELECT " + ", ".join("c%d" % i for i in range(n)) + " FROM t WHERE )",
     "late-failure-chain": lambda n: "SELECT " + " + ".join("x%d" % i for i in range(n)) + " + FROM t",
     "late-failure-rows": lambda n: "INSERT INTO t VALUES " + ", ".join("(%d)" % i for i in range(n)) + " (1 2",
+    "function-items": lambda n: "SELECT " + ", ".join("f%d(c%d, %d)" % (i % 7, i, i) for i in range(n)) + " FROM t",
+    "cast-items": lambda n: "SELECT " + ", ".join("CAST(c%d AS DECIMAL(10, 2))" % i for i in range(n)) + " FROM t",
+    "alter-items": lambda n: "ALTER TABLE t " + ", ".join("ADD COLUMN c%d int" % i if False else "DROP COLUMN c%d" % i for i in range(n)),
+    "function-statements": lambda n: "; ".join("SELECT f(a, %d) FROM t" % i for i in range(n)),
     "nesting": lambda n: "SELECT " + "(" * min(n, 40) + "1" + ")" * min(n, 40) + " + " + " + ".join("1" for _ in range(n)),
 }
 
@@ -33,8 +37,8 @@ def run(ctx):
     quick = ctx.quick
     ctx.cov["rule"] = ("(a) lexer: exact correspondence of the number of handle() calls between model and implementation on the C04 string spaces, and the oracle handle ≤ 2·|text|+1 on "
                        "the implementation; (b)+(c) %d scaling families (items, operator chains, IN lists, VALUES rows, statements, joins, CASE arms, UNION, DDL columns, blanks and comments, "
-                       "long literals, nesting, and near-misses that fail late) at sizes n, 2n, 4n, 8n: deterministic counters observed by wrapping FSMMachine.handle and every TokenScanner "
-                       "method from outside — handle calls, cursor-method calls, largest backward move of a cursor — must at most double (+ a constant) when the input doubles, and no "
+                       "long literals, nesting, and near-misses that fail late) at sizes n, 2n, 4n, 8n: deterministic counters observed by wrapping FSMMachine.handle, every TokenScanner "
+                       "method and the token list of every cursor from outside — handle calls, cursor-method calls, token-list element reads (a slice or iteration of k elements counts k), largest backward move of a cursor — must at most double (+ a constant) when the input doubles, and no "
                        "cursor may move backwards; wall-clock growth exponent (best of several repeats) must stay below 1.6, confirmed three times before it counts" % len(FAMILIES))
     ctx.assumptions += ["seconds are not modelled; timing is judged only through the growth exponent with repeated confirmation", "the parser's cursor-operation bound is validated by measurement, not proved"]
     r = ctx.rng.fork("c19")
@@ -59,11 +63,11 @@ def run(ctx):
         table.setdefault(name, []).append((n, a.split(" ")[0], counters(a)))
     for name, rows in table.items():
         ctx.count("family:" + name + ":" + rows[0][1].split(":")[0])
-        ctx.sample({"family": name, "sizes": [x[0] for x in rows], "handle": [x[2]["handle"] for x in rows], "cursor": [x[2]["cursor"] for x in rows]}, limit=20)
+        ctx.sample({"family": name, "sizes": [x[0] for x in rows], "handle": [x[2]["handle"] for x in rows], "cursor": [x[2]["cursor"] for x in rows], "reads": [x[2]["reads"] for x in rows]}, limit=20)
         if any(x[2]["backwards"] > 0 for x in rows):
             pfam.report(ctx, "cursor-moved-backwards", {"kind": "input", "entry": "parse_statements", "dialect": "MYSQL", "input": FAMILIES[name](sizes[0]), "family": name,
                                                         "observed": [x[2] for x in rows], "oracle": "c19: the token cursor only moves forward", "how_found": "family"})
-        for key in ("handle", "cursor"):
+        for key in ("handle", "cursor", "reads"):
             for (n1, _, c1), (n2, _, c2) in zip(rows, rows[1:]):
                 growth = len(FAMILIES[name](n2)) / len(FAMILIES[name](n1))     # the text grows a little faster than n (longer numerals)
                 if c2[key] > growth * 1.1 * c1[key] + 64:
